@@ -22,6 +22,8 @@ class CellSpanningTree(SpanningTree):
             self.root = starting_cell
         else:
             self.root = randint(0,len(self.mesh.cells)-1)
+        if not (0 <= self.root < len(self.mesh.cells)):
+            raise IndexError("starting_cell {} is not a cell of the mesh".format(self.root))
         
         if forbidden_faces is None:
             self.forbidden_faces = set()
